@@ -223,7 +223,30 @@ def run(p: Program, rep: Report, tier: str) -> None:
     if not rets:
         rep.undecide("R13.3", "iri_to_uri has no return")
     redirect_location_provenance(p, rep, "R13.3")
-    rep.require_instances("R13.3", 3)
+    # ... and nothing else in the package writes a Location header: a dict literal {"location": ...} handed to a response
+    # constructor goes through the UNCHECKED constructor path of MutableHeaders
+    n_loc = 0
+    for f_ in p.all_functions():
+        for n in ast.walk(f_.node):
+            hit = None
+            if isinstance(n, ast.Dict):
+                for k, v in zip(n.keys, n.values):
+                    if isinstance(k, ast.Constant) and isinstance(k.value, (str, bytes)) and (k.value.lower() if isinstance(k.value, str) else k.value.lower().decode("latin-1")) == "location":
+                        hit = v
+            elif isinstance(n, ast.Assign) and len(n.targets) == 1 and isinstance(n.targets[0], ast.Subscript) and isinstance(n.targets[0].slice, ast.Constant) \
+                    and isinstance(n.targets[0].slice.value, str) and n.targets[0].slice.value.lower() == "location":
+                hit = n.value
+            if hit is None:
+                continue
+            n_loc += 1
+            escaped = isinstance(hit, ast.Call) and isinstance(p.resolve_call(f_, hit), FuncInfo) and p.resolve_call(f_, hit).name == "iri_to_uri"
+            if escaped:
+                rep.ok("R13.3", f"{f_.fq}: Location = iri_to_uri(...)")
+            else:
+                rep.violation("R13.3", construct(f_, text=f"location <- {ast.unparse(hit)[:50]}"), where(f_, n),
+                              f"{f_.fq} writes a Location header that does not pass iri_to_uri ({ast.unparse(hit)[:50]}): request-derived text (a path segment containing CR/LF, cancelled by a later '..') "
+                              "reaches the header raw" + (" - and a headers= dict is not even checked by MutableHeaders.__setitem__" if isinstance(n, ast.Dict) else ""))
+    rep.require_instances("R13.3", 5)
 
     # ------------------------------------------------------------------ R13.4
     br = p.cls("baize.responses:BaseResponse")
